@@ -207,6 +207,10 @@ HllArray<A>* HllArray<A>::newHll(std::istream& is, const A& allocator) {
     uint8_t auxLgIntArrSize = listHeader[4];
     AuxHashMap<A>* auxHashMap = AuxHashMap<A>::deserialize(is, lgK, auxCount, auxLgIntArrSize, comapctFlag, allocator);
     ((Hll4Array<A>*)sketch)->putAuxHashMap(auxHashMap);
+  } else if (!comapctFlag && tgtHllType == target_hll_type::HLL_4) {
+    // an updatable HLL_4 image carries a zero-filled aux area even when there are no exceptions:
+    // consume it so that the stream is left at the end of the image
+    is.ignore(static_cast<std::streamsize>(4) << hll_constants::LG_AUX_ARR_INTS[lgK]);
   }
 
   if (!is.good())
